@@ -167,6 +167,15 @@ def build_image(spec):
         n = 120
         img, _, _ = step_maps(spec)
         return img, n
+    if spec['kind'] == 'psfmap':  # compact sources and blends that straddle the cell boundaries (rows / columns 32, 64, 96) of
+        n = 128                   # a coarse 4 x 4 psf map (written next to the image, imgpsf=)
+        srcs = [(30.0, 30.0, 6.0, 2.0, 1.6, 30.0), (100.0, 30.0, -4.5, 1.9, 1.7, -50.0), (30.0, 100.0, 7.5, 2.2, 1.6, 10.0),
+                (100.0, 100.0, 3.5, 1.8, 1.6, 70.0),
+                (43.6, 64.2, 10.0, 1.9, 1.7, 15.0), (50.3, 63.8, 7.0, 1.9, 1.7, 15.0),        # blend along x, on the y = 64 boundary
+                (61.0, 20.0, 8.0, 1.9, 1.6, 40.0), (67.5, 21.0, 6.0, 1.8, 1.6, -20.0),        # blend across x = 64
+                (80.0, 93.0, 6.0, 1.8, 1.6, 0.0), (80.5, 99.5, 9.0, 1.9, 1.7, 60.0),          # blend across y = 96
+                (31.0, 60.0, -5.0, 1.8, 1.6, 0.0), (33.5, 66.0, -8.0, 1.9, 1.7, 30.0)]        # negative blend on the corner (32, 64)
+        return (render(n, srcs) * spec.get('scale', 1.0)).astype(np.float32), n
     if spec['kind'] == 'mixed':   # mixed-sign islands (islands are flooded on |SNR|): a positive source touching a DEEPER
         # negative bowl, a positive source touching a SHALLOWER negative bowl, the same two along the other axis, an
         # all-negative blend and two ordinary sources
@@ -233,6 +242,22 @@ def write_image(ctx, spec, tag):
         fits.PrimaryHDU(data, make_header(n, ra0=spec.get('ra0', 150.0), dec0=spec.get('dec0', -30.0),
                                          **{k: (tuple(v) if k == 'crpix_off' else v) for k, v in spec.get('hdr', {}).items()})
                         ).writeto(path, overwrite=True)
+        if spec['kind'] == 'psfmap':    # a coarse psf map over the image: planes a, b (degrees), pa; beam 15 % larger in
+            ncell = 4                   # every other cell
+            ih = make_header(n, ra0=spec.get('ra0', 150.0), dec0=spec.get('dec0', -30.0))
+            ph = fits.Header()
+            for k in ('CTYPE1', 'CTYPE2', 'CRVAL1', 'CRVAL2'):
+                ph[k] = ih[k]
+            ph['CRPIX1'] = ncell / 2.0 + 0.5
+            ph['CRPIX2'] = ncell / 2.0 + 0.5
+            ph['CDELT1'] = ih['CDELT1'] * n / ncell
+            ph['CDELT2'] = ih['CDELT2'] * n / ncell
+            psf = np.zeros((3, ncell, ncell), dtype=np.float32)
+            for i in range(ncell):
+                for j in range(ncell):
+                    f = 1.0 + 0.15 * ((i + j) % 2)
+                    psf[:, i, j] = ih['BMAJ'] * f, ih['BMIN'] * f, ih['BPA']
+            fits.PrimaryHDU(psf, ph).writeto(path.replace('.fits', '_psf.fits'), overwrite=True)
         if spec['kind'] == 'step':      # the noise and background maps go next to the image (rmsin= / bkgin=)
             _, rmsmap, bkgmap = step_maps(spec)
             hdr = make_header(n, ra0=spec.get('ra0', 150.0), dec0=spec.get('dec0', -30.0))
@@ -394,6 +419,9 @@ def real_opts(opts, path=None):
     if o.pop('maps', False):
         o['rmsin'] = path.replace('.fits', '_rms.fits')
         o['bkgin'] = path.replace('.fits', '_bkg.fits')
+    if o.pop('psfmap', False):
+        o['imgpsf'] = path.replace('.fits', '_psf.fits')
+    o.pop('thread', None)
     if o.pop('outfile_buf', False):
         import io
         o['outfile'] = io.StringIO()
@@ -403,6 +431,26 @@ def real_opts(opts, path=None):
     return o
 
 
+def in_thread(flag, fn):
+    """call fn() in the main thread, or (flag) in a worker thread as a GUI / web service would; exceptions propagate"""
+    if not flag:
+        return fn()
+    import threading
+    box = {}
+
+    def work():
+        try:
+            box['out'] = fn()
+        except BaseException as e:  # noqa: BLE001
+            box['err'] = e
+    t = threading.Thread(target=work, name='verif-C03-worker')
+    t.start()
+    t.join()
+    if 'err' in box:
+        raise box['err']
+    return box['out']
+
+
 def run_blind(path, opts, record=True):
     from AegeanTools.source_finder import SourceFinder
     rec = Recorder().install() if record else None
@@ -410,7 +458,8 @@ def run_blind(path, opts, record=True):
         with warnings.catch_warnings(), debug_logging(opts.get('debug', False)) as lg:
             warnings.simplefilter('ignore')
             sf = SourceFinder(log=lg)
-            out = sf.find_sources_in_image(path, cores=1, **dict(dict(nonegative=False, nopositive=False), **real_opts(opts, path)))
+            kw = dict(dict(nonegative=False, nopositive=False), **real_opts(opts, path))
+            out = in_thread(opts.get('thread'), lambda: sf.find_sources_in_image(path, cores=1, **kw))
     finally:
         if rec:
             rec.remove()
@@ -425,7 +474,8 @@ def run_prior(path, catalogue, opts, record=True):
             warnings.simplefilter('ignore')
             sf = SourceFinder(log=lg)
             mine = copy.deepcopy(catalogue)     # the caller-owned list of source objects handed to the API
-            out = sf.priorized_fit_islands(path, catalogue=mine, cores=1, **real_opts(opts, path))
+            kw = real_opts(opts, path)
+            out = in_thread(opts.get('thread'), lambda: sf.priorized_fit_islands(path, catalogue=mine, cores=1, **kw))
             # the input catalogue is the caller's: same objects, same order, same values afterwards
             sf._verif_mutated = None
             if len(mine) != len(catalogue):
@@ -528,7 +578,7 @@ class Judge:
         self.ctx.fail(kind, c, detail, sig)
 
 
-def judge_rows(J, comps, mode, filtered=False):
+def judge_rows(J, comps, mode, filtered=False, exempt=None):
     """Spec on every component row + catalogue-level id/uuid clauses"""
     ctx = J.ctx
     c17 = c17_fixed()
@@ -547,6 +597,13 @@ def judge_rows(J, comps, mode, filtered=False):
             if o == 'ok':
                 return
             bad = o.split()[1:]
+            if exempt is not None:
+                # uncertainties of parameters the priorized stage does not fit are copies of the input row's (C05's clause),
+                # not fit products: C03's "positive and finite or -1" does not speak about them
+                ex = exempt(s)
+                for b in [b for b in bad if b in ex]:
+                    ctx.count('copied-uncertainty-not-judged (input row value ' + xclass(getattr(s, b)) + ')')
+                bad = [b for b in bad if b not in ex]
             if not c17:
                 known = [b for b in bad if b.endswith(':carry60')]
                 for _ in known:
@@ -829,8 +886,16 @@ def judge_errors(J, rec, label):
 def judge_prior(J, out, rec, sf, opts, inp, label, fiterr_islands=()):
     ctx = J.ctx
     comps = [s for s in out if hasattr(s, 'source')]
-    judge_rows(J, comps, label)
     stage = opts.get('stage', 3)
+    copied_fields = (['err_ra', 'err_dec'] if stage < 2 else []) + (['err_a', 'err_b', 'err_pa'] if stage < 3 else [])
+    inp_by_uuid = {s.uuid: s for s in inp}
+
+    def exempt(s):
+        src = inp_by_uuid.get(s.uuid)
+        if src is None:
+            return set()
+        return {k for k in copied_fields if F(getattr(s, k)) == F(getattr(src, k))}
+    judge_rows(J, comps, label, exempt=exempt)
     # --- numbering vs model (regenerated istart / group_size)
     ncomp_groups, want_pairs = [], []
     for call in rec.refits:
@@ -925,6 +990,26 @@ def debug_rerun(ctx, J, label, kind, path, opts, out, catalogue=None):
     if d:
         J.fail('spec', f"{label}: the same run with the loggers at DEBUG gives a different catalogue: {d}",
                dict(site='reproducible', what='logging-dependence', clause='differs'))
+
+
+def thread_rerun(ctx, J, label, kind, path, opts, out, catalogue=None):
+    """the same call from a worker thread: completes, bit-identical catalogue"""
+    o = dict(opts, thread=True)
+    try:
+        if kind == 'blind':
+            out2, _, _ = run_blind(path, o, record=False)
+        else:
+            out2, _, _ = run_prior(path, catalogue, o, record=False)
+    except Exception as e:  # noqa: BLE001
+        J.fail('spec', f"{label}: called from a worker thread the run aborts with {type(e).__name__}: {e}",
+               dict(site='find_sources_in_image' if kind == 'blind' else 'priorized_fit_islands', clause='aborts',
+                    exc=type(e).__name__, cause='called-from-a-non-main-thread'))
+        return
+    ctx.count('worker-thread-runs')
+    d = diff_canon(canon(out), canon(out2))
+    if d:
+        J.fail('spec', f"{label}: the same run from a worker thread gives a different catalogue: {d}",
+               dict(site='reproducible', what='thread-dependence', clause='differs'))
 
 
 def child_run(ctx, J, label, job, out, sig=None, what='the same run in a fresh process', other_env=False):
@@ -1216,7 +1301,7 @@ def scenario_history(ctx, variant, nside=3, seed=None):
     ctx.case(case, nontrivial_key=('history', variant, ctx.seed))
 
 
-def scenario_blind(ctx, tag, spec, opts, rerun=True, child=False, roundtrip=False, batch=None, debug=False):
+def scenario_blind(ctx, tag, spec, opts, rerun=True, child=False, roundtrip=False, batch=None, debug=False, thread=False):
     case = dict(scenario=tag, mode='blind', image=spec, opts={k: v for k, v in opts.items()})
     J = Judge(ctx, case) if batch is None else batch.sub(case)
     path, img = write_image(ctx, spec, tag)
@@ -1238,6 +1323,8 @@ def scenario_blind(ctx, tag, spec, opts, rerun=True, child=False, roundtrip=Fals
         rerun_and_diff(ctx, J, label, 'blind', path, opts, out)
     if debug:
         debug_rerun(ctx, J, label, 'blind', path, opts, out)
+    if thread:
+        thread_rerun(ctx, J, label, 'blind', path, opts, out)
     if child:
         child_run(ctx, J, label, dict(kind='blind', image=spec, opts=opts), out)
     if roundtrip:
@@ -1253,15 +1340,18 @@ def scenario_blind(ctx, tag, spec, opts, rerun=True, child=False, roundtrip=Fals
     return comps, path
 
 
-def scenario_prior(ctx, tag, spec, path, inp, opts, rerun=True, child=False, roundtrip=False, debug=False):
+def scenario_prior(ctx, tag, spec, path, inp, opts, rerun=True, child=False, roundtrip=False, debug=False, thread=False):
     case = dict(scenario=tag, mode='priorized', image=spec, opts=dict(opts), n_input=len(inp))
     J = Judge(ctx, case)
     label = f"priorized[{tag} stage={opts.get('stage', 3)} regroup={opts.get('doregroup', True)}]"
     try:
         out, rec, sf = run_prior(path, inp, opts)
     except Exception as e:  # noqa: BLE001
+        cause = 'other'
+        if isinstance(e, ValueError) and 'NaN values detected' in str(e) and any(float(s.peak_flux) == 0 for s in inp):
+            cause = 'input-row-with-peak_flux-0 (the Jacobian divides by amp)'
         J.fail('spec', f"{label}: priorized_fit_islands aborted with {type(e).__name__}: {e}",
-               dict(site='priorized_fit_islands', clause='aborts', exc=type(e).__name__))
+               dict(site='priorized_fit_islands', clause='aborts', exc=type(e).__name__, cause=cause))
         ctx.case(case)
         return None
     judge_prior(J, out, rec, sf, opts, inp, label)
@@ -1278,6 +1368,8 @@ def scenario_prior(ctx, tag, spec, path, inp, opts, rerun=True, child=False, rou
         rerun_and_diff(ctx, J, label, 'prior', path, opts, out, catalogue=inp)
     if debug:
         debug_rerun(ctx, J, label, 'prior', path, opts, out, catalogue=inp)
+    if thread:
+        thread_rerun(ctx, J, label, 'prior', path, opts, out, catalogue=inp)
     if child:
         child_run(ctx, J, label, dict(kind='prior', image=spec, opts=opts, blind_opts=case.get('blind_opts'),
                                       catalogue=[src_to_dict(s) for s in inp]), out, other_env=True)
@@ -1317,6 +1409,20 @@ def dict_to_src(d):
             v = common.h2f(v)
         setattr(s, k, v)
     return s
+
+
+def user_catalogue(comps):
+    """what a user builds from a table of positions, fluxes and shapes: fresh ComponentSource objects, everything else at
+    its constructor default (err_* = NaN, psf_* = NaN)"""
+    from AegeanTools.models import ComponentSource
+    out = []
+    for c in comps:
+        s = ComponentSource()
+        s.island, s.source = int(c.island), int(c.source)
+        for k in ('ra', 'dec', 'peak_flux', 'a', 'b', 'pa'):
+            setattr(s, k, float(getattr(c, k)))
+        out.append(s)
+    return out
 
 
 def synthetic_catalogue(n, spacing=12, nside=None, blend_every=0):
@@ -1533,6 +1639,24 @@ def run(ctx):
         if cs:
             scenario_prior(ctx, f'step-maps{int(ra0)}', spec_s, ps, cs, dict(maps=True, stage=3 if ra0 > 0 else 2,
                                                                             doregroup=(ra0 < 0)), rerun=False, debug=(ra0 > 0))
+    # a coarse psf map (imgpsf=): blends straddle its cell boundaries, so the components of one island have different
+    # local beams; blind (+ island flux) and priorized; also called from a worker thread
+    spec_p = dict(kind='psfmap', seed=0, nside=3)
+    cp, pp = scenario_blind(ctx, 'psf-map', spec_p, dict(rms=0.05, bkg=0.0, psfmap=True, doislandflux=True), rerun=False, thread=True)
+    if cp:
+        scenario_prior(ctx, 'psf-map', spec_p, pp, cp, dict(rms=0.05, bkg=0.0, psfmap=True, stage=3, doregroup=True), rerun=False,
+                       thread=True)
+        # a catalogue built by the user from positions, fluxes and shapes only: the uncertainties keep their default (NaN).
+        # The run must complete and every other clause hold; the copied uncertainties come back as the input had them
+        for stage in (1, 2, 3):
+            bare = user_catalogue(cp)
+            scenario_prior(ctx, f'user-catalogue-stage{stage}', spec_p, pp, bare,
+                           dict(rms=0.05, bkg=0.0, psfmap=True, stage=stage, doregroup=False), rerun=False)
+        # forced photometry: the flux of one input row is unknown and given as 0 (open finding C03-zero-flux-input-aborts)
+        zero = user_catalogue(cp)
+        zero[2].peak_flux = 0.0
+        scenario_prior(ctx, 'zero-flux-input', spec_p, pp, zero, dict(rms=0.05, bkg=0.0, psfmap=True, stage=1, doregroup=False),
+                       rerun=False)
     # an island of more than 1000 pixels
     scenario_blind(ctx, 'big-island', dict(kind='big', seed=0, nside=4), dict(rms=0.05, bkg=0.0, doislandflux=True), rerun=False)
     scenario_history(ctx, 'header-beam')
